@@ -32,6 +32,9 @@ SWITCH_CASES = {
     "main_EnterTraining": REGULAR_CASES, "main_EnterTraining2": REGULAR_CASES,
 }
 TEXT_SWITCHES = {"message_SwitchTalk", "message_SwitchMonologue"}
+FLAG_ARITY = {"flag_CalcBit": 3, "flag_CalcValue": 3, "flag_CalcVariable": 3, "flag_Clear": 1, "flag_Initial": 1, "flag_Set": 2,
+              "flag_ResetDungeonResult": 0, "flag_ResetScenario": 1, "flag_SetAdventureLog": 1, "flag_SetDungeonMode": 2,
+              "flag_SetPerformance": 2, "flag_SetScenario": 3}
 ALL_CASES = REGULAR_CASES | MENU_CASES
 
 
@@ -109,6 +112,10 @@ def wf_ssb(routines: list[list[dict]]) -> str | None:
                     return "DefaultText parameters"
             if c in TEXT_SWITCHES and len(op["params"]) != 1:
                 return "message switch parameters"
+            if c in ("Return", "End", "Hold") and op["params"]:
+                return "keyword op with parameters"
+            if c in FLAG_ARITY and (len(op["params"]) != FLAG_ARITY[c] or any(p[0] not in ("i", "c", "f") for p in op["params"])):
+                return "flag op parameters"
     # every path from an entry ends in a flow-ending op; no cycle of Jump only
     for ri, r in enumerate(routines):
         if not r:
@@ -490,3 +497,33 @@ def ssb_skeleton(ops: list[list[dict]]) -> str:
                 items.append("o")
         out.append("[" + " ".join(items) + "]")
     return " ".join(out)
+
+
+def has_test_only_cycle(routines: list[list[dict]]) -> bool:
+    """a cycle of the flow graph on which no operation is performed: only Branch/Case/Call tests and Jumps"""
+    offs = {}
+    for ri, r in enumerate(routines):
+        for oi, op in enumerate(r):
+            offs[op["off"]] = (ri, oi)
+    nodes = [(ri, oi) for ri, r in enumerate(routines) for oi, op in enumerate(r) if op["code"] in JUMP_IDX]
+    succ: dict = {}
+    for (ri, oi) in nodes:
+        op = routines[ri][oi]
+        out = []
+        t = target_of(op)
+        if t in offs:
+            out.append(offs[t])
+        if op["code"] != "Jump" and oi + 1 < len(routines[ri]):
+            out.append((ri, oi + 1))
+        succ[(ri, oi)] = [x for x in out if x in set(nodes)]
+    state: dict = {}
+
+    def dfs(n) -> bool:
+        state[n] = 1
+        for m in succ[n]:
+            if state.get(m) == 1 or (state.get(m) is None and dfs(m)):
+                return True
+        state[n] = 2
+        return False
+
+    return any(state.get(n) is None and dfs(n) for n in nodes)
